@@ -1,4 +1,5 @@
 import PytezosModel.Michelson.Interp.Syntax
+import PytezosModel.Michelson.Collections
 /-! `Impl.exec` — mirror of the `execute` methods of src/pytezos/michelson/instructions/*.py over the
 `MichelsonStack` of src/pytezos/michelson/stack.py (`items` + `protected` prefix).
 
@@ -260,6 +261,89 @@ def execXor (a b : Val) : Res Val :=
   | .num .nat x, .num .nat y => numFromValue .nat (pyXor x y)
   | _, _ => .err
 
+/-- `a == b` (`__eq__`) on the key classes of the model: `IntType` and its subclasses compare their values
+(`isinstance(other, IntType)`), strings / bytes / booleans their contents, `UnitType` is equal to itself -/
+def valEq : Val → Val → Bool
+  | .num _ a, .num _ b => a == b
+  | .str a, .str b => a == b
+  | .bytes a, .bytes b => a == b
+  | .bool a, .bool b => a == b
+  | .unit, .unit => true
+  | _, _ => false
+
+/-- `a < b` (`__lt__`) on the same classes (`UnitType.__lt__` is `False`) -/
+def valLt : Val → Val → Bool
+  | .num _ a, .num _ b => decide (a < b)
+  | .str a, .str b => listLt a b
+  | .bytes a, .bytes b => listLt a b
+  | .bool a, .bool b => !a && b
+  | _, _ => false
+
+/-- key classes inside the model (the others are property C03 / C14) -/
+def keyModelled : Ty → Bool
+  | .int | .nat | .mutez | .timestamp | .string | .bytes | .bool | .unit => true
+  | _ => false
+
+/-- the model keeps the `(key, value)` tuples of a `MapType` as `pair key value` values -/
+def toKV : Val → Val × Val
+  | .pair k v => (k, v)
+  | v => (v, v)
+
+def ofKV (e : Val × Val) : Val := .pair e.1 e.2
+
+def isPairVal : Val → Bool
+  | .pair _ _ => true
+  | _ => false
+
+/-- MEM after `pop2`: `SetType.contains` (`assert_type_equal`, `item in self.items`) / `MapType.contains` (`get(…) is not None`) -/
+def execMem (key src : Val) : Res Val :=
+  match src with
+  | .set t xs =>
+    if keyModelled t && typeOf key == t then .ok (.bool (_root_.Impl.Coll.Set.contains valEq xs key)) else .err
+  | .map k _ items =>
+    if keyModelled k && items.all isPairVal && typeOf key == k then
+      .ok (.bool (_root_.Impl.Coll.Map.contains valEq (items.map toKV) key))
+    else .err
+  | _ => .err
+
+/-- GET after `pop2`: `MapType.get` then `OptionType.none(src.args[1])` / `from_some` -/
+def execGet (key src : Val) : Res Val :=
+  match src with
+  | .map k v items =>
+    if keyModelled k && items.all isPairVal && typeOf key == k then
+      match _root_.Impl.Coll.Map.get valEq (items.map toKV) key with
+      | some y => .ok (.some y)
+      | none => .ok (.none v)
+    else .err
+  | _ => .err
+
+/-- `src.update(key, None if val.is_none() else val.get_some())` → `(prev_val, dst)` -/
+def mapUpdate (k v : Ty) (items : List Val) (key : Val) (val : Option Val) : Res (Option Val × Val) :=
+  if keyModelled k && items.all isPairVal && typeOf key == k then
+    let r := _root_.Impl.Coll.Map.update valEq valLt (items.map toKV) key val
+    .ok (r.1, .map k v (r.2.map ofKV))
+  else .err
+
+/-- UPDATE after `pop3`: a `bool` selects `SetType.add` / `remove`, an `option` goes to `MapType.update` -/
+def execUpdate (key val src : Val) : Res Val :=
+  match val, src with
+  | .bool b, .set t xs =>
+    if keyModelled t && typeOf key == t then
+      .ok (.set t (if b then _root_.Impl.Coll.Set.add valEq valLt xs key else _root_.Impl.Coll.Set.remove valEq xs key))
+    else .err
+  | .none _, .map k v items => (mapUpdate k v items key none).bind fun r => .ok r.2
+  | .some y, .map k v items => (mapUpdate k v items key (some y)).bind fun r => .ok r.2
+  | _, _ => .err
+
+/-- GET_AND_UPDATE after `pop3`: `(res, dst)`; `res` is pushed last -/
+def execGetAndUpdate (key val src : Val) : Res (Val × Val) :=
+  match val, src with
+  | .none _, .map k v items =>
+    (mapUpdate k v items key none).bind fun r => .ok ((match r.1 with | some p => Val.some p | none => Val.none v), r.2)
+  | .some y, .map k v items =>
+    (mapUpdate k v items key (some y)).bind fun r => .ok ((match r.1 with | some p => Val.some p | none => Val.none v), r.2)
+  | _, _ => .err
+
 def strVals : List Val → Option (List (List Nat))
   | [] => some []
   | .str s :: rest => (strVals rest).map (s :: ·)
@@ -359,6 +443,14 @@ def step (env : Env) (i : Instr) (s : Stack) : Res Stack :=
       | .list t xs => if typeOf a = t then pure (s.push (.list t (a :: xs))) else .err
       | _ => .err
   | .EMPTY_MAP k v => pure (s.push (.map k v []))
+  | .EMPTY_SET t => pure (s.push (.set t []))
+  | .MEM => do let (a, b, s) ← s.pop2; let r ← execMem a b; pure (s.push r)
+  | .GET => do let (a, b, s) ← s.pop2; let r ← execGet a b; pure (s.push r)
+  | .UPDATE => do let (a, b, c, s) ← s.pop3; let r ← execUpdate a b c; pure (s.push r)
+  | .GET_AND_UPDATE => do
+      let (a, b, c, s) ← s.pop3
+      let r ← execGetAndUpdate a b c
+      pure ((s.push r.2).push r.1)
   | .SIZE => do
       let (a, s) ← s.pop1
       match a with
@@ -366,6 +458,7 @@ def step (env : Env) (i : Instr) (s : Stack) : Res Stack :=
       | .bytes x => pure (s.push (.num .nat x.length))
       | .list _ xs => pure (s.push (.num .nat xs.length))
       | .map _ _ xs => pure (s.push (.num .nat xs.length))
+      | .set _ xs => pure (s.push (.num .nat xs.length))
       | _ => .err
   | .ADD => do
       let (a, b, s) ← s.pop2
@@ -553,6 +646,7 @@ mutual
           match c with
           | .list _ xs => iterLoop env fuel body xs s
           | .map _ _ xs => iterLoop env fuel body xs s
+          | .set _ xs => iterLoop env fuel body xs s
           | _ => .err
       | .MAP body => do
           let (c, s) ← s.pop1
